@@ -8,9 +8,11 @@ TECHNIQUE = 'sibling comparison of the three fill_segment implementations on nor
 CLAIM = ('Decides statically: the Argon2 instance has exactly the parameters of spec Table 7.1.1; the implementation is chosen only by flag; the reference, SSSE3 and AVX2 segment fillers agree statement for statement on the '
          'block-addressing skeleton (offsets, pseudo-random source, reference lane/index, current block, overwrite-or-XOR decision - so a re-initialised cache carries no trace of the old one); index_alpha, the H0 absorption '
          'order and H\' have the RFC 9106 structure. Byte equality of the BlaMka compression in its three SIMD flavours is numeric and not claimed.'
-         ' index_alpha is decided by fixed-width evaluation against the RFC 9106 mapping for the configured geometry and two reduced instances with non-power-of-two lane length (A2-INDEX); the overwrite-or-XOR decision as a truth table over (version, pass) (A2-XOR); Blake2b streaming as in C11 (B2-STREAM, B2-FINAL).')
+         ' index_alpha is decided by fixed-width evaluation against the RFC 9106 mapping for the configured geometry and two reduced instances with non-power-of-two lane length (A2-INDEX); the overwrite-or-XOR decision as a truth table over (version, pass) (A2-XOR); Blake2b streaming as in C11 (B2-STREAM, B2-FINAL).'
+         ' The fill is redone whenever the key differs in length or in any byte (BIND-KEY) and keeps no static state, so concurrent fills of different caches cannot mix (RACE-GLOBALS on the linked IR).')
 LEVEL_NOTE = 'Trusted: clang AST of the build flags (SSSE3/AVX2 units are parsed with their -m flags); the BlaMka round functions (fill_block) of the three implementations; Blake2b (C11).'
-EXPLANATION = 'SPEC-ARGON, A2-DISPATCH, A2-SKELETON, A2-XOR, A2-INDEX, A2-H0, A2-HPRIME. A2-INDEX (evaluated), A2-XOR (truth table), B2-STREAM, B2-FINAL.'
+EXPLANATION = ('SPEC-ARGON, A2-DISPATCH, A2-SKELETON, A2-XOR, A2-INDEX, A2-H0, A2-HPRIME. A2-INDEX (evaluated), A2-XOR (truth table), B2-STREAM, B2-FINAL.'
+         ' BIND-KEY, RACE-GLOBALS.')
 
 
 def run(ctx, R):
